@@ -171,6 +171,7 @@ class World:
         self.env = ObsEnv(loader=self.loader, globals=dict(eg))
         self.cenv = Environment(loader=self.cloader, globals=dict(eg))
         self.model = LruModel(self.capacity)
+        self.models: list[LruModel] = [self.model]   # every cache state still possible
         self.model_known = True
         self.lookups: list[Lookup] = []
         self.seq = 0
@@ -359,80 +360,151 @@ class World:
         return None
 
     def judge_seq(self, lookups: list[Lookup]) -> list[Lookup]:
-        """Exact judgement of the lookups of one sequential step; updates the model.
+        """Exact judgement of the lookups of one sequential step against the SET of cache
+        states the reference model allows; updates that set.
 
+        The model is nondeterministic in one place only: after a reload that FAILED, the
+        stale entry may be kept (what the library does) or dropped (equally transparent).
+        A lookup is a violation iff it contradicts every state still possible.
         Returns the lookups that were served stale (permitted)."""
         stale: list[Lookup] = []
         for lk in lookups:
             self.namespaces_seen.add(lk.key[0])
-            e = self.model.get(lk.key) if self.model_known else None
-            in_model = e is not None
-            pre = self.model.state() if self.model_known else "?"
-            if lk.error is not None:
-                self.count("lookup_error")
-                self.count("err:" + lk.error)
-                if lk.live[0] == "err":
-                    if lk.live[1] != lk.error:
-                        raise Violation("wrong_error", lookup=lk.brief())
-                else:
-                    # content parse errors surface from the lookup too
-                    if not lk.read:
-                        raise Violation("spurious_error", lookup=lk.brief())
-                    ref = lk.ref_error
-                    if ref != lk.error:
-                        raise Violation("wrong_error", lookup=lk.brief(), expected=ref)
-                if lk.read and self.model_known and in_model:
-                    self.count("reload_failed")
-                self.model.touch(lk.key)
+            if not self.model_known:
+                self._judge_unknown(lk, stale)
                 continue
-            fresh = lk.live[0] == "ok" and lk.served == (lk.live[1], lk.live[2])
-            if not lk.read:
-                self.count("hit")
-                if self.model_known and not in_model:
-                    raise Violation("over_retention", lookup=lk.brief(), model=pre,
-                                    capacity=self.capacity)
-            else:
-                self.count("storage_read")
-                if in_model:
-                    live_same = lk.live[0] == "ok" and (e.ver, e.loc) == (lk.live[1], lk.live[2])
-                    self.count("early_reload" if live_same else "reload")
-            if not fresh:
-                if lk.read:
-                    # it read storage and still produced something that is not live
-                    raise Violation("wrong_content", lookup=lk.brief(), model=pre,
-                                    why="read storage but served a version that is not live")
-                if self.model_known:
-                    if e is None or (e.ver, e.loc) != lk.served:
-                        raise Violation("wrong_content", lookup=lk.brief(), model=pre,
-                                        entry=[e.ver, e.loc] if e else None)
-                    why = self.stale_permitted(e, lk.live)
-                    if why is None:
-                        sub = "detectable"
-                        if (lk.live[0] == "ok" and lk.live[2] != e.loc
-                                and self.store.mtime(e.loc) == e.mtime):
-                            sub = "shadowed"
-                        elif lk.live[0] == "err" and self.store.mtime(e.loc) == e.mtime:
-                            sub = "shadowed_err"
-                        raise Violation("stale_served", sub=sub, lookup=lk.brief(), model=pre)
-                    self.count("stale_served:" + why)
+            survivors: list[LruModel] = []
+            first_contra: Violation | None = None
+            notes: dict | None = None
+            for m in self.models:
+                try:
+                    succ, n = self._step_model(m, lk)
+                except Violation as v:
+                    if first_contra is None:
+                        first_contra = v
+                    continue
+                if notes is None:
+                    notes = n
+                for s2 in succ:
+                    if all(s2.od != o.od or list(s2.od) != list(o.od) for o in survivors):
+                        survivors.append(s2)
+            if not survivors:
+                raise first_contra  # contradicts every admissible cache state
+            if len(survivors) > 24:
+                # too many possibilities to follow: stop judging retention until the next flush
+                survivors = survivors[:1]
+                self.model_known = False
+                self.count("model_state_set_overflow")
+            self.models = survivors
+            self.model = survivors[0]
+            for k, v in (notes or {}).get("count", {}).items():
+                self.count(k, v)
+            if (notes or {}).get("stale"):
                 stale.append(lk)
-            elif not lk.read and self.model_known and e is not None and (e.ver, e.loc) != lk.served:
-                raise Violation("wrong_content", lookup=lk.brief(), model=pre,
-                                why="served live content the model never saw loaded")
-            # model update
-            self.model.touch(lk.key)
-            if lk.read:
-                ev0 = self.model.evictions
-                self.model.insert(lk.key, Entry(lk.served[0], lk.served[1],
-                                                self.store.mtime(lk.served[1]),
-                                                self.store.has_freshness(lk.served[1])))
-                if self.model.evictions > ev0:
-                    self.count("eviction")
-            if self.model_known:
-                post = self.model.state()
-                self.states.add(post)
-                self.transitions.add(f"{pre}>{'R' if lk.read else 'H'}:{lk.key[0] or ''}/{lk.key[1]}")
+            post = self.model.state()
+            self.states.add(post)
+            self.transitions.add(f"{(notes or {}).get('pre', '?')}>{'R' if lk.read else 'H'}:{lk.key[0] or ''}/{lk.key[1]}")
+            if len(self.models) > 1:
+                self.count("model_states_gt1")
         return stale
+
+    def _judge_unknown(self, lk: Lookup, stale: list) -> None:
+        """Retention unknown (right after a concurrent batch): errors and content only."""
+        if lk.error is not None:
+            self.count("lookup_error")
+            self.count("err:" + lk.error)
+            if lk.live[0] == "err":
+                if lk.live[1] != lk.error:
+                    raise Violation("wrong_error", lookup=lk.brief())
+            elif not lk.read:
+                raise Violation("spurious_error", lookup=lk.brief())
+            elif lk.ref_error != lk.error:
+                raise Violation("wrong_error", lookup=lk.brief(), expected=lk.ref_error)
+            return
+        self.count("storage_read" if lk.read else "hit")
+        fresh = lk.live[0] == "ok" and lk.served == (lk.live[1], lk.live[2])
+        if not fresh:
+            if lk.read:
+                raise Violation("wrong_content", lookup=lk.brief(),
+                                why="read storage but served a version that is not live")
+            stale.append(lk)
+
+    def _step_model(self, m: LruModel, lk: Lookup):
+        """One lookup against one possible cache state. Returns (successor states, notes)
+        or raises Violation if the observation is impossible in this state."""
+        cnt: dict[str, int] = {}
+
+        def c(k):
+            cnt[k] = cnt.get(k, 0) + 1
+
+        e = m.get(lk.key)
+        in_model = e is not None
+        pre = m.state()
+        notes = {"count": cnt, "pre": pre, "stale": False}
+        if lk.error is not None:
+            c("lookup_error")
+            c("err:" + lk.error)
+            if lk.live[0] == "err":
+                if lk.live[1] != lk.error:
+                    raise Violation("wrong_error", lookup=lk.brief())
+            else:
+                # content parse errors surface from the lookup too
+                if not lk.read:
+                    raise Violation("spurious_error", lookup=lk.brief())
+                if lk.ref_error != lk.error:
+                    raise Violation("wrong_error", lookup=lk.brief(), expected=lk.ref_error)
+            keep = m.copy()
+            keep.touch(lk.key)
+            succ = [keep]
+            if in_model:
+                # the loader tried to replace a cached entry and failed (an error on a cached key
+                # means it did not simply serve the entry): the entry may survive or be dropped
+                c("reload_failed")
+                drop = m.copy()          # the stale entry may be dropped after a failed reload
+                drop.od.pop(lk.key, None)
+                succ.append(drop)
+            return succ, notes
+        fresh = lk.live[0] == "ok" and lk.served == (lk.live[1], lk.live[2])
+        if not lk.read:
+            c("hit")
+            if not in_model:
+                raise Violation("over_retention", lookup=lk.brief(), model=pre, capacity=self.capacity)
+        else:
+            c("storage_read")
+            if in_model:
+                live_same = lk.live[0] == "ok" and (e.ver, e.loc) == (lk.live[1], lk.live[2])
+                c("early_reload" if live_same else "reload")
+        if not fresh:
+            if lk.read:
+                # it read storage and still produced something that is not live
+                raise Violation("wrong_content", lookup=lk.brief(), model=pre,
+                                why="read storage but served a version that is not live")
+            if e is None or (e.ver, e.loc) != lk.served:
+                raise Violation("wrong_content", lookup=lk.brief(), model=pre,
+                                entry=[e.ver, e.loc] if e else None)
+            why = self.stale_permitted(e, lk.live)
+            if why is None:
+                sub = "detectable"
+                if (lk.live[0] == "ok" and lk.live[2] != e.loc
+                        and self.store.mtime(e.loc) == e.mtime):
+                    sub = "shadowed"
+                elif lk.live[0] == "err" and self.store.mtime(e.loc) == e.mtime:
+                    sub = "shadowed_err"
+                raise Violation("stale_served", sub=sub, lookup=lk.brief(), model=pre)
+            c("stale_served:" + why)
+            notes["stale"] = True
+        elif not lk.read and e is not None and (e.ver, e.loc) != lk.served:
+            raise Violation("wrong_content", lookup=lk.brief(), model=pre,
+                            why="served live content the model never saw loaded")
+        nxt = m.copy()
+        nxt.touch(lk.key)
+        if lk.read:
+            ev0 = nxt.evictions
+            nxt.insert(lk.key, Entry(lk.served[0], lk.served[1], self.store.mtime(lk.served[1]),
+                                     self.store.has_freshness(lk.served[1])))
+            if nxt.evictions > ev0:
+                c("eviction")
+        return [nxt], notes
 
     # ------------------------------------------------------------- twins
     def with_clone(self, stale: list[Lookup]):
@@ -621,7 +693,11 @@ def do_par(w: World, op: dict):
     """Concurrent batch: safety only (R3 on every decision, R4, attribution of versions)."""
     tasks = op["tasks"]
     results: dict[int, tuple] = {}
-    model_before = dict(w.model.od) if w.model_known else {}
+    model_before: dict = {}
+    if w.model_known:
+        for m in w.models:
+            for k, e in m.od.items():
+                model_before.setdefault(k, []).append(e)
 
     async def lr(i, tk):
         kw = _kw(w, tk)
@@ -743,8 +819,7 @@ def do_par(w: World, op: dict):
                 pass
             else:
                 cached = set()
-                e0 = model_before.get(lk.key)
-                if e0 is not None:
+                for e0 in model_before.get(lk.key, ()):
                     cached.add((e0.ver, e0.loc))
                 for o in ended:
                     if o is lk:
@@ -858,6 +933,7 @@ def do_flush(w: World) -> None:
         items.append(((None, name), Entry(ver, loc, w.store.mtime(loc), w.store.has_freshness(loc))))
     w.take()
     w.model.reset(items)
+    w.models = [w.model]
     w.model_known = True
     w.count("flush")
 
